@@ -390,10 +390,10 @@ static PICOMETERS_TO_ANGSTROMS: f64 = 0.01;
 
 static COVALENT_RADII_PICOMETERS: [f64; 86] = [
     31., 28., 128., 96., 84., 76., 71., 66., 57., 58., 166., 141., 121., 111., 107., 105., 102.,
-    106., 102., 203., 176., 170., 160., 153., 139., 161., 152., 150., 124., 132., 122., 122., 120.,
-    119., 120., 116., 220., 195., 190., 175., 164., 154., 147., 146., 142., 139., 145., 144., 142.,
+    106., 203., 176., 170., 160., 153., 139., 161., 152., 150., 124., 132., 122., 122., 120., 119.,
+    120., 120., 116., 220., 195., 190., 175., 164., 154., 147., 146., 142., 139., 145., 144., 142.,
     139., 139., 138., 139., 140., 244., 215., 207., 204., 203., 201., 199., 198., 198., 196., 194.,
-    192., 192., 189., 190., 187., 175., 187., 170., 162., 151., 144., 141., 136., 136., 132., 145.,
+    192., 192., 189., 190., 187., 187., 175., 170., 162., 151., 144., 141., 136., 136., 132., 145.,
     146., 148., 140., 150., 150.,
 ];
 
